@@ -55,6 +55,8 @@ class C11(Prop):
                 yield {"k": "action", "name": name, "qubits": [q], "n": n, "via": ("gate", "circuit", "clifford_circuit")[q % 3], "qtype": ty, "pkg": "py"}
         for c, t, ty, n in ((64, 65, "int8", 96), (100, 3, "int8", 130), (3, 127, "int8", 130), (128, 129, "uint8", 130)):
             yield {"k": "action", "name": "CNOT", "qubits": [c, t], "n": n, "via": "gate", "qtype": ty, "pkg": "py"}
+        for name, qs1, qs2 in (("H", [3], [9]), ("S", [2], [11]), ("X", [4], [8]), ("CNOT", [3, 4], [8, 9]), ("CNOT", [10, 9], [4, 3])):
+            yield {"k": "printopts", "name": name, "qubits": [qs1, qs2, qs1], "n": 14, "pkg": "py"}
         for name, qs in (("H", [1]), ("S", [0]), ("X", [1]), ("Y", [0]), ("Z", [1]), ("CNOT", [0, 1]), ("CNOT", [1, 0])):
             yield {"k": "reuse", "name": name, "qubits": qs, "widths": [3, 2, 4, 2, 66, 3], "pkg": "py"}
         yield {"k": "ctable"}
@@ -76,6 +78,23 @@ class C11(Prop):
                 g = getattr(C, scn["name"])(*scn["qubits"])
                 rec["ret"] = be.p_list(g.forward_map)
                 return [rec]
+            if k == "printopts":
+                import numpy
+                out = []
+                with numpy.printoptions(threshold=6, edgeitems=1):
+                    for qs in scn["qubits"]:
+                        name = scn["name"]
+                        if name == "CNOT" and qs[0] > qs[1]:
+                            name = "CNOTrev"
+                        rec = {"op": "gate_action", "name": name, "qs": sorted(q + 1 for q in qs), "n": scn["n"], "via": "printopts", "raw": qs}
+                        try:
+                            obj = be.stabilizer.identity_map(scn["n"])
+                            getattr(C, scn["name"])(*qs).forward(obj)
+                            rec["imgs"] = be.p_list(obj)
+                        except Exception as e:
+                            rec["exc"] = _exc(e)
+                        out.append(rec)
+                return out
             if k == "reuse":
                 qs = scn["qubits"]
                 name = scn["name"]
